@@ -101,6 +101,34 @@ def _aliased(gp):
     return False
 
 
+def _syntactic_alias(prog):
+    """a predicate whose only clause is deterministic with a single body literal: its atoms share the node of that literal (the ground
+    program keeps one name per node, so the sharing is not always visible in the names)"""
+    n = {}
+    for hs, b, pr in G.rules_of(prog):
+        for h in hs:
+            n[h[0]] = n.get(h[0], 0) + 1
+    for c in prog["clauses"]:
+        if c[0] == "fact":
+            n[c[2][0]] = n.get(c[2][0], 0) + 1
+    return any(c[0] == "rule" and c[1] is None and len(c[3]) == 1 and n.get(c[2][0]) == 1 and c[2][0] != "dom" for c in prog["clauses"])
+
+
+def _body_node_as_disjunct(gp):
+    """is the internal body node of a probabilistic clause (named body_N(...)) also a direct alternative of a disjunction, i.e. does a
+    deterministic clause of some atom have exactly the same body as a probabilistic clause?"""
+    try:
+        for i, n, t in gp:
+            if t == "disj":
+                for c in n.children:
+                    cn = gp.get_node(abs(c))
+                    if str(getattr(cn, "name", "") or "").startswith("body_"):
+                        return True
+    except Exception:  # noqa
+        return False
+    return False
+
+
 def run_case(case):
     from problog.program import PrologString
     from problog.formula import LogicDAG
@@ -123,7 +151,7 @@ def run_case(case):
     try:
         gp = LogicDAG.createFrom(PrologString(text), label_all=True, avoid_name_clash=False, keep_order=True, keep_all=False,
                                  keep_duplicates=False, hide_builtins=False)
-        alias = _aliased(gp)
+        alias = _aliased(gp) or _syntactic_alias(prog)
         bn = formula_to_bn(gp)
         r = bn_marginals(bn)
     except KeyError as e:
@@ -132,7 +160,7 @@ def run_case(case):
         if "@?" not in fs and "c31" not in fs:
             return viol("bn:%s" % fs, "exporting the network raised KeyError %s\n%s" % (e, text), feat=feats, sample=text)
         tg = ""
-        if _aliased(gp):
+        if _aliased(gp) or _syntactic_alias(prog):
             tg += "|aliased-node-names"
         if any(key is not None and key != 0 and key < 0 for _n, key, _l in gp.get_names_with_label()):
             tg += "|negated-labelled-node"
@@ -160,6 +188,8 @@ def run_case(case):
         for h in hs:
             derived[h[0]] = derived.get(h[0], 0) + 1
     tag0 = "|aliased-node-names" if alias else ""
+    if _body_node_as_disjunct(gp):
+        tag0 += "|clause-body-node-as-disjunct"
     tag = tag0 + "|multiple-probabilistic-clauses-for-one-head" if any(adheads.get(k, 0) >= 1 and derived.get(k, 0) >= 2 for k in derived) else tag0
     if rows_bad is not None:
         return viol("bn:cpt-row-not-normalised" + tag, "CPT row %r of %s sums to %r\n%s" % (rows_bad[1], rows_bad[0], sum(rows_bad[2]), text),
